@@ -158,7 +158,7 @@ func checkC07(c *Ctx) {
 		}
 	}
 	for _, f := range m.Funcs {
-		if f == m.Ctor || containsFn(m.StopUnits, f) {
+		if f == m.Ctor || containsFn(m.StopCores, f) {
 			continue
 		}
 		eachInstr(f, func(in ssa.Instruction) {
